@@ -25,6 +25,13 @@ def grids(ctx, cmds):
             shape = ctx.rng.choice(shapes)
             inputs = [numpy.ma.array(numpy.ma.getdata(a).reshape(shape).copy(), mask=numpy.ma.getmaskarray(a).reshape(shape).copy()) for a in arrs]
             cases.append(eems.Case(cmd, eems.gen_params(ctx.rng, cmd, inputs, "valid"), inputs))
+    # long input lists on grids of rank 2 and 3 (every list command)
+    for cmd in cmds:
+        if eems.COMMANDS[cmd][1] != "list":
+            continue
+        for shape in ((2, 3), (3, 1), (2, 2, 2)):
+            k = ctx.rng.choice([9, 10, 16])
+            cases.append(eems.gen_case(ctx.rng, cmd, style="valid", shape=shape, n=k))
     return cases
 
 
